@@ -56,6 +56,9 @@ ASSUMPTIONS = [
     "must get the conversion of its own cell, labels and order unchanged -- tested only.  Values that are a '#' "
     "placeholder followed by a unit/label in mixed case ('# Hz', '# degree Celsius', '# µV') are part of the value "
     "streams; that they are carried verbatim is an instance of C03_remainder_verbatim / C03_extension_is_written.  "
+    "Values and extensions with ':' and '/' in every order (URLs, paths, time ranges) are part of every value/extension "
+    "stream: the namespace is only what precedes a ':' that comes before the first '/' (model: get_schema_namespace; the "
+    "specification expects the node and the verbatim value).  "
     "Proved on the model side: C03_extension_is_written",
     "by construction of the model, not proved of the implementation: a lookup leaves the model's table untouched and "
     "reading/copying a HedTag is an identity step (the code in /repo has no memo or cached forms); C03_tag_reads_invisible "
@@ -378,10 +381,13 @@ def model_obs(m):
 # case generation
 # ---------------------------------------------------------------------------------------------
 
-EXT_WORDS = ["Qzx9", "my-ext_1", "Wvv8/Zed7", "x", "Qzx9/", "ab cd", "日本", "é1", "Q#", "#x"]
+# incl. extensions/values with ':' and '/' in every order (URLs, paths, time ranges): the namespace is only what
+# precedes a ':' that comes before the FIRST '/'
+EXT_WORDS = ["Qzx9", "my-ext_1", "Wvv8/Zed7", "x", "Qzx9/", "ab cd", "日本", "é1", "Q#", "#x", "kq:vq/wq", "Wvv8/k:v"]
 # incl. the '#' placeholder followed by a unit or label in mixed case (sidecar templates: 'Frequency/# Hz')
 VALUES = ["3.5 mJx", "12", "-1.5e3 qq", "some text", "3:4", "a/b/c", "@home", "3 ms", "#", "# ms", "# Hz",
-          "# degree Celsius", "# Trial_A", "# µV"]
+          "# degree Celsius", "# Trial_A", "# µV", "https://example.org/Data", "C:/data/Sub-01_events.tsv",
+          "12:30/13:00", "a/b:c/d"]
 CASES = ["asis", "upper", "lower", "random"]
 
 
